@@ -1,4 +1,4 @@
-import BridgeVerif.Translated.Enc
+import BridgeVerif.Translated.EncBase
 import BridgeVerif.Model.Score
 /-!
 # `point_difference_to_imps` / `score_to_imp` AS TRANSLATED compute what the model computes, for EVERY integer  (C16)
@@ -124,21 +124,21 @@ end loop
 
 /-! ## the translated program -/
 
-theorem imps_global : lookup P.globals n__IMPS_LIST = some (.tuple (IMPS_LIST.map Val.int)) := rfl
+theorem imps_global : lookup PB.globals n__IMPS_LIST = some (.tuple (IMPS_LIST.map Val.int)) := rfl
 theorem imps_length : IMPS_LIST.length = 24 := rfl
-theorem imps_func : findFunc P.funcs n_point_difference_to_imps = some f_point_difference_to_imps := rfl
-theorem score_to_imp_func : findFunc P.funcs n_score_to_imp = some f_score_to_imp := rfl
+theorem imps_func : findFunc PB.funcs n_point_difference_to_imps = some f_point_difference_to_imps := rfl
+theorem score_to_imp_func : findFunc PB.funcs n_score_to_imp = some f_score_to_imp := rfl
 
 /-- THE TRANSLATED `point_difference_to_imps` computes what the model computes, for EVERY integer -/
 theorem point_difference_to_imps_translated (d : Int) :
     (fn n_point_difference_to_imps [.int d]).int? = some (pointDifferenceToImps d) := by
-  have h := impsCall P IMPS_LIST imps_global imps_length d topFuel (by decide)
+  have h := impsCall PB IMPS_LIST imps_global imps_length d topFuel (by decide)
   simp only [fn, Program.runFn, imps_func, callFn, h, Except.map, R.int?, pointDifferenceToImps, ge_iff_le]
 
 /-- THE TRANSLATED `score_to_imp` -/
 theorem score_to_imp_translated (a b : Int) :
     (fn n_score_to_imp [.int a, .int b]).int? = some (scoreToImp a b) := by
-  have h := scoreToImpCall P IMPS_LIST imps_global imps_func imps_length a b topFuel (by decide)
+  have h := scoreToImpCall PB IMPS_LIST imps_global imps_func imps_length a b topFuel (by decide)
   simp only [fn, Program.runFn, score_to_imp_func, callFn, h, Except.map, R.int?, scoreToImp, pointDifferenceToImps,
     ge_iff_le]
 
